@@ -20,6 +20,7 @@ import (
 	"context"
 	"fmt"
 	"math/rand"
+	"os"
 	"runtime"
 	"sort"
 	"strings"
@@ -723,8 +724,8 @@ func genOracleSession(rng *rand.Rand, st *Stats) []string {
 	ref := newRefOracle(managed, detect, n0)
 	ops := []string{fmt.Sprintf("reset %d %d %d", b01(managed), b01(detect), n0)}
 	st.Inc(fmt.Sprintf("orc-session:managed=%v,detect=%v", managed, detect))
-	nkeys := 2 + rng.Intn(3)
-	nops := 10 + rng.Intn(50)
+	nkeys := 2 + rng.Intn(2)
+	nops := 15 + rng.Intn(70)
 	maxTs := n0 // managed: largest timestamp used so far
 	for i := 0; i < nops; i++ {
 		var active, closing, withWrites []int
@@ -745,8 +746,11 @@ func genOracleSession(rng *rand.Rand, st *Stats) []string {
 			}
 		}
 		r := rng.Intn(100)
+		if open < 2 && rng.Intn(2) == 0 {
+			r = 0 // keep at least two transactions in flight
+		}
 		switch {
-		case r < 14 && open < 6: // new transaction
+		case r < 12 && open < 6: // new transaction
 			tid := len(ref.txns)
 			upd := rng.Intn(5) != 0
 			if managed {
@@ -775,7 +779,7 @@ func genOracleSession(rng *rand.Rand, st *Stats) []string {
 				}
 				ref.txns = append(ref.txns, t)
 			}
-		case r < 34 && len(active) > 0: // read
+		case r < 32 && len(active) > 0: // read
 			tid := active[rng.Intn(len(active))]
 			k := uint64(1 + rng.Intn(nkeys))
 			ops = append(ops, fmt.Sprintf("read %d %d", tid, k))
@@ -789,7 +793,7 @@ func genOracleSession(rng *rand.Rand, st *Stats) []string {
 			if ref.txns[tid].update {
 				ref.txns[tid].writes[k] = true
 			}
-		case r < 68 && len(withWrites) > 0: // commit
+		case r < 72 && len(withWrites) > 0: // commit
 			tid := withWrites[rng.Intn(len(withWrites))]
 			t := ref.txns[tid]
 			if managed {
@@ -822,7 +826,7 @@ func genOracleSession(rng *rand.Rand, st *Stats) []string {
 					t.state = rtClosed
 				}
 			}
-		case r < 78 && len(active)+len(closing) > 0: // discard
+		case r < 79 && len(active)+len(closing) > 0: // discard
 			all := append(append([]int{}, active...), closing...)
 			tid := all[rng.Intn(len(all))]
 			if len(closing) > 0 && rng.Intn(2) == 0 {
@@ -850,7 +854,7 @@ func genOracleSession(rng *rand.Rand, st *Stats) []string {
 					t.state = rtActive
 				}
 			}
-		case r < 94 && managed: // SetDiscardTs
+		case r < 86 && managed: // SetDiscardTs
 			ts := ref.discardTs + uint64(rng.Intn(3))
 			if rng.Intn(10) == 0 && ts > 0 {
 				ts--
@@ -1019,7 +1023,11 @@ func execOracle(ops []string, st *Stats) ([]string, []string) {
 		s.v.Stop()
 		s = nil
 	}
+	trace := os.Getenv("VERIF_TRACE") != ""
 	for i, l := range ops {
+		if trace {
+			fmt.Fprintln(os.Stderr, "op:", l)
+		}
 		w := strings.Fields(l)
 		if len(w) == 0 {
 			outs[i] = "bad-op"
@@ -1114,8 +1122,24 @@ func execOracle(ops []string, st *Stats) ([]string, []string) {
 			}
 			wantConflict := s.ref.conflictSpec(t.ref)
 			if s.managed {
-				if !wantConflict && a[1] < before.LastCleanupTs {
-					res = "assert" // AssertTrue(ts >= lastCleanupTs) would kill the process
+				// AssertTrue(ts >= lastCleanupTs) would kill the process (log.Fatalf cannot be
+				// recovered): refuse the call exactly when the production hasConflict — evaluated
+				// here on the dumped committedTxns — finds nothing and ts is below lastCleanupTs.
+				implConflict := false
+				for _, c := range before.Committed {
+					if c.Ts <= t.ref.readTs {
+						continue
+					}
+					for _, k := range c.Keys {
+						for _, r := range t.ref.reads {
+							if r == k {
+								implConflict = true
+							}
+						}
+					}
+				}
+				if !implConflict && a[1] < before.LastCleanupTs {
+					res = "assert"
 					break
 				}
 				t.x.SetCommitTs(a[1])
